@@ -412,10 +412,13 @@ impl Replay {
         let text = format!("# v{}\n", n);
         // full-text sync: a notification may carry several change events, each with the whole text; the last
         // one is the text the editor has.  Every second notification is sent that way.
+        // the version numbers go down from one notification to the next (as after a close and reopen, or an undo in
+        // some editors): the server syncs full texts and has no business comparing them
+        let version = 100 - num(n).as_i64().unwrap_or(1);
         let params = if num(n).as_i64().unwrap_or(1) % 2 == 0 {
-            json!({"textDocument":{"uri":uri(key),"version":1},"contentChanges":[{"text":"# v9999\n"},{"text":text}]})
+            json!({"textDocument":{"uri":uri(key),"version":version},"contentChanges":[{"text":"# v9999\n"},{"text":text}]})
         } else {
-            did_change_params(key, &text)
+            json!({"textDocument":{"uri":uri(key),"version":version},"contentChanges":[{"text":text}]})
         };
         self.client.send_notif("textDocument/didChange", params);
         self.nots_sent += 1;
@@ -653,7 +656,12 @@ pub fn cmd_replay(args: &[String]) -> i32 {
             // a server that gets stuck is reported by the first cases; do not spend minutes on the rest
             continue;
         }
-        let (events, stuck) = replay_schedule(&sched, &keys);
+        // (a replay that trips over the server's behaviour - a message the schedule did not expect, a closed
+        // channel - must not take the harness down: it is a stuck schedule, reported as such)
+        let (events, stuck) = match std::panic::catch_unwind(std::panic::AssertUnwindSafe(|| replay_schedule(&sched, &keys))) {
+            Ok(r) => r,
+            Err(_) => (json!([{"ev":"Stuck","what":"the replay could not be carried through (the server did something the schedule has no step for)"}]), true),
+        };
         if stuck {
             tool_errors += 1;
         }
